@@ -340,6 +340,11 @@ def dict_keyseq(st: St, cell: DictCell, name="ks"):
     st = st.fact(S.seq_norm(n, karr, ks))          # normalised: a plain array constant, usable in triggers
     st = st.fact(z3.ForAll([i], z3.Implies(z3.And(i >= 0, i < n), z3.And(cell.dom[karr[i]], idx(karr[i]) == i))))
     st = st.fact(z3.ForAll([k], z3.Implies(cell.dom[k], z3.And(idx(k) >= 0, idx(k) < n, karr[idx(k)] == k))))
+    if isinstance(ks, z3.DatatypeSortRef) and ks.num_constructors() == 1 and ks.name().startswith("Tup<"):
+        # keys that are tuples: each enumerated key IS the tuple of its components (eta; gives E-matching the constructor term)
+        c = ks.constructor(0)
+        comps = [ks.accessor(0, a)(karr[i]) for a in range(c.arity())]
+        st = st.fact(z3.ForAll([i], z3.Implies(z3.And(i >= 0, i < n), karr[i] == c(*comps)), patterns=[karr[i]]))
     return st, n, karr
 
 
